@@ -207,8 +207,27 @@ impl Glue {
         let tn = self.ty_name(top);
         let mut k = 0u32;
         let v: Vec<String> = (0..4).map(|sel| self.value(top, sel, &mut k)).collect();
+        // take the value apart: every field of the top type is copied out of its place
+        // (a record's fields by name, a variant's fields by a binding) and released again
+        let apart = match &self.decls[self.decls.len() - 1] {
+            Decl::Record(fs) => (0..fs.len()).map(|j| format!("let p{j} = w.f{j}; ")).collect::<String>(),
+            Decl::Enum(vs) => {
+                let arms: Vec<String> = vs
+                    .iter()
+                    .enumerate()
+                    .map(|(j, fs)| {
+                        if fs.is_empty() {
+                            format!("V{j} => {j}")
+                        } else {
+                            format!("V{j}({}) => {j}", (0..fs.len()).map(|i| format!("b{j}x{i}")).collect::<Vec<_>>().join(", "))
+                        }
+                    })
+                    .collect();
+                format!("let k = match w {{ {} }}; ", arms.join(", "))
+            }
+        };
         out.push_str(&format!(
-            "fn main({}) -> u32 {{\n  let v: {tn} = if n == 0 {{ {} }} else if n == 1 {{ {} }} else if n == 2 {{ {} }} else {{ {} }};\n  let w = v;\n  if c {{ return 1; }}\n  let l = [v, w];\n  if m == 1 {{ return 2; }}\n  let u = l.get(0);\n  if m == 2 {{ return 3; }}\n  match u {{ Some(x) => 4, None => 5 }}\n}}\n",
+            "fn main({}) -> u32 {{\n  let v: {tn} = if n == 0 {{ {} }} else if n == 1 {{ {} }} else if n == 2 {{ {} }} else {{ {} }};\n  let w = v;\n  {apart}\n  if c {{ return 1; }}\n  let l = [v, w];\n  if m == 1 {{ return 2; }}\n  let u = l.get(0);\n  if m == 2 {{ return 3; }}\n  match u {{ Some(x) => 4, None => 5 }}\n}}\n",
             crate::progen::PARAMS, v[0], v[1], v[2], v[3]
         ));
         out
